@@ -105,6 +105,12 @@ pub fn angle_conv(deg: bool) {
     let x = any_tf();
     let r = if deg { x.to_degrees() } else { x.to_radians() };
     let k = if deg { R::DEG_PER_RAD } else { R::RAD_PER_DEG };
+    if native() {
+        // replay on the real code: the result must be the real product with the reference constant
+        let want = x * tf(f64::from_bits(k.0), f64::from_bits(k.1));
+        assert!(same(r, want));
+        return;
+    }
     #[allow(static_mut_refs)]
     unsafe {
         assert!(T_MUL_TT.n == 1);
